@@ -1,6 +1,6 @@
 #!/usr/bin/env python3
 """Development aid for property C16 (not a registered check): applies realistic mutants to a scratch worktree of the repository
-(on top of the two repairs fixes/C16-loaded-dice-index.patch and fixes/C16-geometric-p1.patch), runs `./check C16` on each and
+(which must contain the repairs of fixes/: loaded-dice index, geometric p = 1, std_gamma small shape), runs `./check C16` on each and
 reports the exit code, the first violation and which part of the check saw it.  The scratch tree is restored after every mutant.
 
     VERIF_REPO=/tmp/c16-repo python3 tools/c16_selftest.py [name-substring]
@@ -47,6 +47,11 @@ MUTANTS = [
     ("gamma: squeeze constant 0.331 -> 0.431", C, "1.0 - 0.331 * (x * x) * (x * x)", "1.0 - 0.431 * (x * x) * (x * x)"),
     ("poisson counts the arrival that crosses the window", C, "        if (t <= 1.0) {\n            /* Still within time window */\n            ctr++;\n        }\n        else {",
      "        ctr++;\n        if (t <= 1.0) {\n        }\n        else {"),
+    ("std_gamma guard: u drawn BEFORE the recursive call", C, "        const double g = cmb_random_std_gamma(shape + 1.0);\n        const double u = cmb_random();\n",
+     "        const double u = cmb_random();\n        const double g = cmb_random_std_gamma(shape + 1.0);\n"),
+    ("std_gamma guard: pow(u, shape) instead of pow(u, 1/shape)", C, "return g * pow(u, 1.0 / shape);", "return g * pow(u, shape);"),
+    ("std_gamma guard: recursion with shape + 2", C, "const double g = cmb_random_std_gamma(shape + 1.0);", "const double g = cmb_random_std_gamma(shape + 2.0);"),
+    ("std_gamma guard removed (the original defect)", C, "    if (shape < 1.0) {", "    if (0) {"),
     ("weibull uses shape instead of 1/shape", H, "const double x = scale * pow(u, 1.0 / shape);", "const double x = scale * pow(u, shape);"),
 ]
 
